@@ -326,6 +326,10 @@ class Model:
             return Raises()  # the override raised once both sides were recorded
         return ("ret", None)
 
+    def readmits(self, u, v):
+        """egsim.classes.SanctuaryUniverse: a removed vertex tagged 3 is admitted again at once."""
+        return self.objs[u].get("cls") == "SanctuaryUniverse" and self.tags.get(v) == 3
+
     def m_uni_remove(self, op):
         u, v = op["u"], op["v"]
         if v not in self.objs[u]["members"]:
@@ -333,6 +337,8 @@ class Model:
         self.objs[u]["members"].remove(v)
         if u in self.objs[v]["universes"]:
             self.objs[v]["universes"].remove(u)
+        if self.readmits(u, v):
+            self._join(u, v)
         return ("ret", None)
 
     def m_v_remove_uni(self, op):
@@ -342,6 +348,8 @@ class Model:
         self.objs[v]["universes"].remove(u)
         if v in self.objs[u]["members"]:
             self.objs[u]["members"].remove(v)
+            if self.readmits(u, v):
+                self._join(u, v)
         return ("ret", None)
 
     # builders -------------------------------------------------------------------------------
